@@ -246,6 +246,19 @@ def run_real(method, sde_type, gf, noise, present, names=None, seed=0, d=2, m=2,
     if default_bm:  # let check_contract build the BrownianInterval: its entropy comes from numpy's global generator
         bm = None
         np.random.seed(4321 + seed)
+    if names:
+        # a caller may keep ONE `names` mapping and pass it to every call: use the same dict object for a first, discarded call and
+        # require that it comes back unchanged
+        before = dict(names)
+        try:
+            with torch.no_grad():
+                torchsde.sdeint(sde, y0, TS, bm=BrownianInterval(t0=TS[0], t1=TS[-1], size=(batch, m_eff), dtype=torch.float64,
+                                                                 entropy=99 + seed, levy_area_approximation=levy),
+                                method=method, dt=0.1, names=names, options={'grad_free': True} if gf else None)
+        except Exception:  # noqa: the measured call below reports it
+            pass
+        if names != before:
+            return f"other:names-argument-mutated: {before} -> {names}", 'sdeint changed the mapping passed as `names`'
     try:
         with torch.no_grad():
             ys = torchsde.sdeint(sde, y0, TS, bm=bm, method=method, dt=0.1, names=names,
